@@ -39,17 +39,17 @@ pub fn verif_dir() -> String {
 /// seed alone and not of the machine's speed
 pub fn default_runs(prop: &str, tier: &str) -> u64 {
     let quick = match prop {
-        "C01" => 150_000,
-        "C02" => 250_000,
-        "C05" => 200_000,
-        "C06" => 300_000,
-        "C17" => 150_000,
-        "C18" => 150_000,
-        "C20" => 120_000,
+        "C01" => 400_000,
+        "C02" => 800_000,
+        "C05" => 600_000,
+        "C06" => 1_000_000,
+        "C17" => 500_000,
+        "C18" => 600_000,
+        "C20" => 300_000,
         _ => 50_000,
     };
     if tier == "thorough" {
-        quick * 25
+        quick * 20
     } else {
         quick
     }
@@ -83,9 +83,16 @@ pub fn run_batch(prop: &dyn Prop, args: &Args, runs: u64) -> BatchResult {
     let hang: Mutex<Option<(u64, usize)>> = Mutex::new(None);
     const CHUNK: u64 = 64;
     let threads = args.threads.max(1);
-    std::thread::scope(|scope| {
+    struct DoneGuard<'a>(&'a AtomicU64);
+    impl Drop for DoneGuard<'_> {
+        fn drop(&mut self) {
+            self.0.fetch_add(1, Ordering::Release);
+        }
+    }
+    let scope_result = std::panic::catch_unwind(std::panic::AssertUnwindSafe(|| std::thread::scope(|scope| {
         for _ in 0..threads {
             scope.spawn(|| {
+                let _done = DoneGuard(&done_workers);
                 let slot = watchdog::register();
                 slots.lock().unwrap().push(slot);
                 let mut st = Stats::default();
@@ -161,7 +168,6 @@ pub fn run_batch(prop: &dyn Prop, args: &Args, runs: u64) -> BatchResult {
                 for (k, c) in counts {
                     *m.2.entry(k).or_insert(0) += c;
                 }
-                done_workers.fetch_add(1, Ordering::Release);
             });
         }
         // monitor: hang detection only
@@ -175,7 +181,11 @@ pub fn run_batch(prop: &dyn Prop, args: &Args, runs: u64) -> BatchResult {
                 }
             }
         });
-    });
+    })));
+    if scope_result.is_err() {
+        eprintln!("check: HARNESS ERROR: a simulator worker panicked outside the code under test (see above)");
+        std::process::exit(2);
+    }
     let (stats, found, counts) = merged.into_inner().unwrap();
     let runs_done = stats.runs;
     BatchResult {
